@@ -17,7 +17,7 @@ import (
 
 func init() {
 	props["C20"] = runC20
-	props["FIXTURES-GEN"] = func(c *Ctx) { genFixtureLean(c, "/verif/lean/Psa/Fixtures") }
+	props["FIXTURES-GEN"] = func(c *Ctx) { genFixtureLean(c, verifDir()+"/lean/Psa/Fixtures") }
 }
 
 // apiDefaultGo: the API-server defaulting that touches what the checks read: a volume with no source becomes an emptyDir.
